@@ -49,6 +49,7 @@ class Ref:
         self.perigee_km = (s.a * (1 - s.ecco) - 1) * s.radiusearthkm
         # Vallado: isimp = 1 when rp = ao(1-ecco) < 220/re + 1 (drag series truncated after C1, no C5/delta-M terms)
         self.isimp = 1 if self.perigee_km < 220.0 else 0
+        self._pert = None
 
     def full_near_earth(self, guard_km=1e-3):
         """True / False / None(undetermined: perigee within guard of the 220 km switch)."""
@@ -62,6 +63,50 @@ class Ref:
         """-> (error code, r [m] tuple, v [m/s] tuple) at `tsince_min` minutes from the epoch."""
         e, r, v = self.sat.sgp4_tsince(tsince_min)
         return e, tuple(x * KM for x in r), tuple(x * KM for x in v)
+
+    def rates(self, tsince_min, h_s=50e-6):
+        """Central finite-difference rates of change of the reference output with time over +-h_s seconds:
+        (|dr/dt| [m/s], |dv/dt| [m/s^2]).  For a smooth model they equal |v| and |a|; where the theory's position is
+        not the integral of its velocity (deep-space periodics at sin i -> 0) they are larger."""
+        h = h_s / 60.0
+        e1, r1, v1 = self.state(tsince_min - h)
+        e2, r2, v2 = self.state(tsince_min + h)
+        if e1 or e2:
+            return 0.0, 0.0
+        return (math.dist(r1, r2) / (2 * h_s), math.dist(v1, v2) / (2 * h_s))
+
+    def conditioning(self, tsince_min, rel=1e-9):
+        """Sensitivity of the reference state to relative perturbations of its real-valued inputs:
+        kappa_r = sum_k |r(x_k (1+rel)) - r(x)| / rel  [m per unit relative perturbation], same for v, over
+        x in {mean motion, eccentricity, B*} (the inputs of the drag / secular series; the inclination is left out because
+        a 1e-9 neighbourhood of i = 180 deg lies in the tan(i/2) singularity of the long-period term, which the theory's
+        guard removes only at exactly 180 deg).  (Round-off of a different but equally valid evaluation
+        order is bounded by a small multiple of 2^-53 x kappa.)"""
+        if self._pert is None:
+            s = self.sat
+            base = dict(bstar=s.bstar, ecco=s.ecco, argpo=s.argpo, inclo=s.inclo, mo=s.mo, no_kozai=s.no_kozai, nodeo=s.nodeo)
+
+            def build(**kw):
+                p = dict(base, **kw)
+                q = _api.Satrec()
+                q.sgp4init(_api.WGS72, "i", s.satnum, (s.jdsatepoch - 2433281.5) + s.jdsatepochF, p["bstar"], 0.0, 0.0,
+                           p["ecco"], p["argpo"], p["inclo"], p["mo"], p["no_kozai"], p["nodeo"])
+                return q
+
+            # both one-sided perturbations; the smaller response is used, so that a guard of the theory sitting exactly
+            # at the input value (e = 1e-4) does not masquerade as sensitivity
+            self._pert = [build()] + [(build(**{k: base[k] * (1 + rel)}), build(**{k: base[k] * (1 - rel)}))
+                                      for k in ("no_kozai", "ecco", "bstar") if base[k] != 0.0]
+        e0, r0, v0 = self._pert[0].sgp4_tsince(tsince_min)
+        kr = kv = 0.0
+        for qp, qm in self._pert[1:]:
+            e1, r1, v1 = qp.sgp4_tsince(tsince_min)
+            e2, r2, v2 = qm.sgp4_tsince(tsince_min)
+            if e0 or e1 or e2:
+                return math.inf, math.inf
+            kr += min(math.dist(r0, r1), math.dist(r0, r2)) * KM / rel
+            kv += min(math.dist(v0, v1), math.dist(v0, v2)) * KM / rel
+        return kr, kv
 
     def state_jd(self, jd, fr):
         e, r, v = self.sat.sgp4(jd, fr)
@@ -135,6 +180,16 @@ def selftest():
     e, r, v = low.state(60.0 * 24 * 30)
     assert e != 0
     assert Ref(*_VER[2][:2]).full_near_earth() is False
+    # rates: smooth model -> finite-difference rates equal |v| and mu/r^2-ish; conditioning: re-initialisation from the
+    # parsed values reproduces the TLE record exactly, and d r / d ln(n) ~ |v| t for a near-circular orbit
+    e, r, v = iss.state(1440.0)
+    dr, dv = iss.rates(1440.0)
+    assert abs(dr - math.hypot(*v)) < 1e-2 * math.hypot(*v), (dr, math.hypot(*v))
+    assert abs(dv - 3.986008e14 / math.hypot(*r) ** 2) < 0.05 * dv, dv
+    kr, kv = iss.conditioning(1440.0)
+    e0, r0, v0 = iss._pert[0].sgp4_tsince(1440.0)
+    assert max(abs(a * KM - b) for a, b in zip(r0, r)) == 0.0
+    assert 0.5 < kr / (math.hypot(*v) * 86400.0) < 3.0, kr
 
 
 if __name__ == "__main__":
